@@ -450,6 +450,8 @@ def check_transposition(spec):
             if sub_nnz > fill:
                 classes.add('T_several_fill_blocks')
     classes.add('T_nnz_0' if nnz == 0 else 'T_nnz_1' if nnz == 1 else 'T_nnz_gt_100' if nnz > 100 else 'T_nnz_2_to_100')
+    if nnz > 65535:
+        classes.add('T_nnz_gt_65535')
     if nnz == n_major * n_minor:
         classes.add('T_fully_dense')
     if nnz and (P.sum(axis=1) == 0).any():
